@@ -268,7 +268,7 @@ def run_native(prop, items, timeout=600):
     path = os.path.join(scratch, f'native-{os.getpid()}-{time.time_ns()}.json')
     with open(path, 'w') as f:
         json.dump(items, f)
-    env = dict(os.environ, VERIF_SCRATCH=scratch, PYTHONPATH=VERIF)
+    env = dict(os.environ, VERIF_SCRATCH=scratch, PYTHONPATH=pythonpath())
     try:
         p = subprocess.run([sys.executable, '-m', 'vlib.runner', '--native', prop, path],
                            capture_output=True, text=True, timeout=timeout, cwd=VERIF, env=env)
@@ -278,6 +278,12 @@ def run_native(prop, items, timeout=600):
         if line.startswith('NATIVE-RESULT '):
             return json.loads(line[len('NATIVE-RESULT '):])
     raise RuntimeError(f'native replay failed: rc={p.returncode}\n{p.stdout[-2000:]}\n{p.stderr[-3000:]}')
+
+
+def pythonpath():
+    '''PYTHONPATH for child interpreters: /verif, preceded by the scratch repository copy if one is analysed.'''
+    rp = os.environ.get('VERIF_REPO')
+    return (rp + ':' if rp else '') + VERIF
 
 
 def _scratch():
